@@ -466,6 +466,14 @@ func labelsOf(c Cand) []string {
 			break
 		}
 	}
+	seenCase := map[int]bool{}
+	for _, a := range c.Arms {
+		if seenCase[a.Case] {
+			l = append(l, "the same case listed more than once")
+			break
+		}
+		seenCase[a.Case] = true
+	}
 	return l
 }
 
@@ -612,6 +620,18 @@ func TestMatchContexts(t *testing.T) {
 			c.Arms = append(c.Arms, Arm{i, form})
 		}
 		c.Default = rapid.IntRange(0, 2).Draw(rt, "default") == 0
+		if c.mustReject() && len(c.Arms) > 0 && rapid.IntRange(0, 3).Draw(rt, "duplicateArm") == 0 {
+			// the same case listed twice (or three times) covers nothing new: still rejected, and the
+			// diagnostic still has to name a case that is really missing
+			for k := rapid.IntRange(1, 2).Draw(rt, "nDuplicates"); k > 0; k-- {
+				d := c.Arms[rapid.IntRange(0, len(c.Arms)-1).Draw(rt, "dupWhich")]
+				if d.Form == "bind" && rapid.Bool().Draw(rt, "dupOtherForm") {
+					d.Form = "ignore"
+				}
+				at := rapid.IntRange(0, len(c.Arms)).Draw(rt, "dupAt")
+				c.Arms = append(c.Arms[:at], append([]Arm{d}, c.Arms[at:]...)...)
+			}
+		}
 		if c.mustReject() && rapid.IntRange(0, 7).Draw(rt, "untypedTarget") == 0 {
 			// only candidates that must be rejected: whether fc accepts a complete match on a target it cannot
 			// type yet is not promised anywhere
